@@ -40,7 +40,7 @@ type Engine struct {
 }
 
 func New(tier string) kernel.Engine { return &Engine{tier: tier, cfgs: xutil.AllConfigs()} }
-func (e *Engine) Name() string       { return "faultsim" }
+func (e *Engine) Name() string      { return "faultsim" }
 func (e *Engine) Close() {
 	if e.node != nil {
 		e.node.Close()
@@ -250,6 +250,9 @@ func posOffset(text string, p token.Position) (int, bool) {
 	}
 	return start + p.Column, true
 }
+
+// OddPrefixes: bytes that tools leave at the start of a stored source text.
+var OddPrefixes = []string{"\xEF\xBB\xBF", "\xEF\xBB\xBF// c\n", "\uFEFF\n", "#!/usr/bin/env xjs\n", "\x00", "\u200b", "\u00a0", "\r\n", "\t\v\f ", "/**/", "<!-- x\n", "\xFF\xFE", "\u2028", "\xEF\xBB\xBF\xEF\xBB\xBF"}
 
 // ---- C12 ---------------------------------------------------------------------
 
@@ -1085,6 +1088,18 @@ func (e *Engine) runC11(ch *kernel.Chooser, st *kernel.Stats) kernel.RunResult {
 					Text: base[:at] + " " + w + " " + base[at:]})
 			}
 		}
+		// the stored text starts with bytes editors and tools leave there (byte-order marks, a shebang line, invisible
+		// spaces, NUL ...): in front of the valid program and of a few of the faulted texts
+		for i := 0; i < 4; i++ {
+			pre := OddPrefixes[ch.Choose(len(OddPrefixes))]
+			t := base
+			ctx := "prefix"
+			if i > 0 && len(enum) > 0 {
+				ef := enum[ch.Choose(len(enum))]
+				t, ctx = ef.Text, "prefix+"+ef.Ctx
+			}
+			texts = append(texts, Fault{Kind: "prefix", Ctx: ctx, At: 0, Text: pre + t})
+		}
 		res.Nontrivial = len(p.Toks) >= 4
 	}
 	res.Fingerprint = kernel.Hash64(base)
@@ -1099,7 +1114,7 @@ func (e *Engine) runC11(ch *kernel.Chooser, st *kernel.Stats) kernel.RunResult {
 				}
 				seen[sig] = true
 				res.Violations = append(res.Violations, kernel.Violation{Property: "C11", Kind: kind, Signature: sig,
-					Detail: fmt.Sprintf("%s\ninput (%s): %q\nbase program: %q", detail, f.Ctx, f.Text, base),
+					Detail:       fmt.Sprintf("%s\ninput (%s): %q\nbase program: %q", detail, f.Ctx, f.Text, base),
 					Materialised: map[string]any{"input": f.Text, "fault": f.Ctx, "mode": m.String(), "base": base}})
 			})
 			res.Evals++
@@ -1127,7 +1142,7 @@ func init() {
 			}
 			return kernel.TierSpec{Runs: 60000, WallSeconds: 45, ShrinkSecs: 20, RunBudgetMs: 20000}
 		},
-		Rule: "each run = one seeded valid program (generator with ground truth, validated against xjs's lexer, goja and node) x EVERY single-token deletion, EVERY statement-separator removal and EVERY truncation offset (C11 adds seeded byte flips/inserts/deletes/duplications, double faults and random byte strings, x 4 parser modes); evaluations = fault cases (x modes for C11); distinct = distinct base program text; non-trivial = base program has at least 4 tokens",
+		Rule:      "each run = one seeded valid program (generator with ground truth, validated against xjs's lexer, goja and node) x EVERY single-token deletion, EVERY statement-separator removal and EVERY truncation offset (C11 adds seeded byte flips/inserts/deletes/duplications, double faults and random byte strings, x 4 parser modes); evaluations = fault cases (x modes for C11); distinct = distinct base program text; non-trivial = base program has at least 4 tokens",
 		Real:      []string{"lexer", "parser (all modes)", "ast", "compiler (all configurations, C11)", "sourcemap (through the compiler)"},
 		Simulated: []string{"the storage medium holding the source text: lost tokens, lost separators, truncation at every offset, byte corruption"},
 		Oracles:   []string{"generator ground truth (token offsets, roles, separators)", "goja parser and node vm.Script as reference JavaScript parsers (C12 precondition only; both must reject)", "xjs's own plain lexer for the set of token ranges (C11)"},
@@ -1139,7 +1154,7 @@ func init() {
 		},
 		RequiredProbes: map[string][]string{
 			"C12": {"fault.delete", "fault.unsep", "fault.trunc", "fault.trunc_in_string", "fault.trunc_in_backtick", "fault.trunc_in_bracket", "fault.trunc_in_block", "c12.rejected_ok"},
-			"C11": {"fault.delete", "fault.unsep", "fault.trunc", "fault.byte", "fault.double", "fault.random", "c11.error_free", "c11.with_errors", "c11.compiles"},
+			"C11": {"fault.delete", "fault.unsep", "fault.trunc", "fault.byte", "fault.double", "fault.random", "fault.prefix", "c11.error_free", "c11.with_errors", "c11.compiles"},
 		},
 	})
 }
